@@ -47,7 +47,8 @@ def oracle_advance(ctx: Ctx, case):
     n = case["steps"]
     ps = np.asarray(many(jnp.asarray(p0), jnp.asarray(f), jnp.asarray(dt), n), np.float64)
     allp = np.vstack([p0[None].astype(np.float64), ps])
-    tol = 2e-5 * (1 + n / 50)  # float32 accumulation over n additions of O(pi) values
+    # float32 accumulation over n additions: each step rounds phase + increment (magnitude up to |inc| + pi) once per foot
+    tol = 2e-5 * (1 + n / 50) + n * 2 * 6e-8 * (abs(2 * PI * float(f) * float(dt)) + 2 * PI)
     ctx.check(bool(np.all((allp >= -PI - 1e-6) & (allp <= PI + 1e-6))), "C20/gait/phase-leaves-[-pi,pi]", min=float(allp.min()), max=float(allp.max()), frequency=float(f))
     inc = 2 * PI * float(f) * float(dt)
     d = wrap(np.diff(allp, axis=0) - inc)
